@@ -408,6 +408,8 @@ type Listener struct {
 	ClosedErr string
 	// ServerCloseErr is given to the server end of every connection dialled from now on (see Conn.CloseErr).
 	ServerCloseErr error
+	// CloseErr: Close closes the listener and then reports this error (a socket file that cannot be removed, ...)
+	CloseErr error
 }
 
 func NewListener() *Listener {
@@ -438,7 +440,7 @@ func (l *Listener) Accept() (net.Conn, error) {
 
 func (l *Listener) Close() error {
 	l.closeOnce.Do(func() { close(l.done) })
-	return nil
+	return l.CloseErr
 }
 
 func (l *Listener) Addr() net.Addr { return addr("memnet-listener") }
